@@ -5,6 +5,7 @@ import (
 	"fmt"
 	"sort"
 	"strings"
+	"time"
 
 	"github.com/go-logr/logr"
 	apierrors "k8s.io/apimachinery/pkg/api/errors"
@@ -297,9 +298,9 @@ func (e *Env) controller(kind string) reconciler {
 	case CtrlObjectTemplate, CtrlClusterObjectTemplate:
 		var c *objecttemplate.GenericObjectTemplateController
 		if kind == CtrlObjectTemplate {
-			c = objecttemplate.NewObjectTemplateController(e.Client, e.Uncached, log, e.Cache, Scheme, Mapper, objecttemplate.ControllerConfig{})
+			c = objecttemplate.NewObjectTemplateController(e.Client, e.Uncached, log, e.Cache, Scheme, Mapper, objecttemplate.ControllerConfig{OptionalResourceRetryInterval: 30 * time.Second, ResourceRetryInterval: 30 * time.Second})
 		} else {
-			c = objecttemplate.NewClusterObjectTemplateController(e.Client, e.Uncached, log, e.Cache, Scheme, Mapper, objecttemplate.ControllerConfig{})
+			c = objecttemplate.NewClusterObjectTemplateController(e.Client, e.Uncached, log, e.Cache, Scheme, Mapper, objecttemplate.ControllerConfig{OptionalResourceRetryInterval: 30 * time.Second, ResourceRetryInterval: 30 * time.Second})
 		}
 		// the environment manager always sets an environment before controllers run
 		env := manifests.PackageEnvironment{Kubernetes: manifests.PackageEnvironmentKubernetes{Version: "v1.27.0"}}
